@@ -72,6 +72,9 @@ type c20Files struct {
 	lines    int
 	dead     bool
 	compared int
+	// every callback is at least the redraw interval after the one before: no line is throttled,
+	// so the bar and the solo bar must draw at exactly the same callbacks
+	noThrottle bool
 }
 
 func (c *ctx) c20NewFiles(clock *atomic.Int64, base int64, cols int, label string, gap func() int64) *c20Files {
@@ -177,6 +180,16 @@ func (f *c20Files) call(kind string, num int64, name string) {
 	f.tabs.addLeft(c, cnt, idx, f.name)
 
 	// ---- ORACLES (model-independent): the line of file k is file k's own
+	if f.noThrottle && f.solo != nil && (pf == nil) != (sf == nil) {
+		shown := func(x []string) string {
+			if x == nil {
+				return "no line"
+			}
+			return fmt.Sprintf("%q", strings.Join(x, " | "))
+		}
+		c.violate("files:line-missing-or-extra", "a callback of a file draws a line on the bar but not on a fresh bar that saw only this file (or the other way round): state of an earlier file leaks into it",
+			fmt.Sprintf("%s: the bar shows %s, a bar that saw only file %d shows %s", f.desc, shown(pf), f.fileNo, shown(sf)))
+	}
 	if pf != nil {
 		f.lines++
 		c.count("files:line-written")
@@ -369,6 +382,7 @@ func genProgressFiles(c *ctx) {
 	// then a 2000 byte file that is not
 	{
 		f := c.c20NewFiles(&clock, base, 120, "resumed-then-fresh", func() int64 { return 1000 })
+		f.noThrottle = true
 		f.call("N", 2, "")
 		f.playPlan(c20FilePlan{name: "a.bin", full: 614400, resume: true, hashes: []int64{409600}, match: 409600, steps: []int64{102400, 204800}, done: true})
 		f.playPlan(c20FilePlan{name: "b.bin", full: 2000, steps: []int64{2000}, done: true})
@@ -384,6 +398,7 @@ func genProgressFiles(c *ctx) {
 			cols = 5 + c.rng.Intn(55)
 		}
 		f := c.c20NewFiles(&clock, base, cols, label, gap)
+		f.noThrottle = i%4 != 3
 		n := 2 + c.rng.Intn(3)
 		count := n
 		if c.rng.Intn(8) == 0 {
@@ -466,6 +481,7 @@ func genProgressFiles(c *ctx) {
 				}
 				f := c.c20NewFiles(&clock, base, 120, fmt.Sprintf("real transfer, protocol %d, callbacks of the %s, files %s", proto, side, strings.Join(kinds, " ")),
 					func() int64 { return 1000 })
+				f.noThrottle = true
 				msg := trzsz.VerifRunFilesPair(paths, filepath.Join(dir, "dst"), proto, onSender, f.call)
 				if msg != "" {
 					c.violate("files:harness", "the real transfer did not complete", f.desc+": "+msg)
@@ -578,7 +594,7 @@ func c20FilesE2E(dir string, upload bool, order int) (viol [][3]string, nlines i
 		last[idx] = [2]string{m[4] + "%", m[5]}
 		if got := c20ParseSizeText(m[5]); got > float64(sizes[idx-1])*1.01+1 {
 			viol = append(viol, [3]string{"files:e2e:more-than-the-file-has", "a progress line claims more bytes transferred than the file has",
-				fmt.Sprintf("%s: file %d has %d bytes, a line shows %q", desc, idx, sizes[idx-1], strings.TrimSpace(text))})
+				fmt.Sprintf("%s: file %d has %d bytes, a line shows %q", desc, idx, sizes[idx-1], m[0])})
 		}
 	}
 	for idx := 1; idx <= 2; idx++ {
